@@ -44,6 +44,9 @@ def worker_main(args):
       mod.replay(ctx, rec['case'])
     else:
       mod.run_shard(ctx)
+  except common.RepoRefusedValidInput as e:
+    ctx.violation(e.mech, e.what, e.case)
+    ctx.note('shard stopped at a valid input the repository refused')
   except Exception as e:  # pylint: disable=broad-except
     import traceback
     ctx.inconclusive_reason(
